@@ -105,6 +105,16 @@ theorem selectBy_take {α} : ∀ (cond : List Bool) (xs : List α), selectBy con
     simp only [List.length_cons, List.take_succ_cons, List.zip_cons_cons]
     cases c <;> simp [ih]
 
+/-- the part of a condition beyond the data never selects anything -/
+theorem selectBy_take_cond {α} : ∀ (cond : List Bool) (xs : List α), selectBy (cond.take xs.length) xs = selectBy cond xs
+  | [], xs => by simp [selectBy]
+  | c :: cs, [] => by simp [selectBy]
+  | c :: cs, x :: xs => by
+    have ih := selectBy_take_cond cs xs
+    unfold selectBy at ih ⊢
+    simp only [List.length_cons, List.take_succ_cons, List.zip_cons_cons]
+    cases c <;> simp [ih]
+
 /-- selecting block by block on common chunks is selecting on the whole -/
 theorem zipWith_selectBy_flatten {α} : ∀ (cs : List Nat) (cond : List Bool) (xs : List α),
     cond.length = sum cs → xs.length = sum cs →
